@@ -281,7 +281,12 @@ def handle (j : Json) : R Json := do
   | "judge" =>
     let c ← parseClass (← fld j "cls"); let o ← parseObs (← fld j "obs")
     let some cfg ← parseCfgAny true (← fld j "cfg") | throw "judge: no cfg"
+    -- the hypotheses of the theorems, checked on what the harness read off the real class / wrote into the file
+    let wok ← match (← fld j "cfg") with
+      | .arr _ => pure true
+      | w => do pure (writtenOkB (← parseWritten w).args)
     return Json.mkObj [("offending", Json.bool (offendingB ops c cfg)),
+                       ("hyp", Json.bool (wellFormedB c && wok)),
                        ("applied", Json.bool (appliedB ops glue c cfg o)),
                        ("modprops", Json.bool (modPropsB glue c cfg o)),
                        ("writes", Json.bool (writesB ops glue c cfg o)),
